@@ -65,7 +65,7 @@ def facts():
                 rec = {"mid": len(maps) + 1, "year": year, "form": cls.form_name, "target": pf.pdf_field_name, "line": ln, "line_exists": line_obj is not None,
                        "kind": kind, "maxlen": getattr(pf, "max_length", None) if getattr(pf, "max_length", None) is not None else -1,
                        "truev": str(getattr(pf, "_true_value", "")), "choices": [str(c) for c in getattr(pf, "_choices", [])],
-                       "t_exists": False, "t_kind": "", "t_max": -1, "t_on": [], "t_opts": [], "label": "", "lineno": "", "excused": False}
+                       "t_exists": False, "t_kind": "", "t_max": -1, "t_on": [], "t_opts": [], "label": "", "lineno": "", "excused": False, "probes": []}
                 if tree is not None and pf.pdf_field_name in tree:
                     t = tree[pf.pdf_field_name]
                     rec.update({"t_exists": True, "t_kind": t["kind"], "t_max": t["maxchars"] if t["maxchars"] is not None else -1,
@@ -86,6 +86,22 @@ def facts():
                 else:
                     gkey = None
                 rec["excused"] = (cls.form_name, lbase, rec["label"]) in excused
+                if kind == "text" and getattr(pf, "_value_fn", None) is None:
+                    lim = rec["t_max"] if rec["t_max"] >= 0 else rec["maxlen"]
+                    if lim >= 0:
+                        class Echo(object):
+                            def to_string(self, v):
+                                return v
+                        for n in sorted(set(x for x in (lim - 1, lim, lim + 1, lim + 2) if x >= 0)):
+                            for text in set(["9" * n, ("-" + "9" * (n - 1)) if n >= 1 else "", ("A" * n)]):
+                                if len(text) != n:
+                                    continue
+                                try:
+                                    pf.value(text, Echo())
+                                    outc = "ok"
+                                except Exception as e:      # noqa
+                                    outc = type(e).__name__
+                                rec["probes"].append({"len": n, "minus": text.startswith("-"), "outcome": outc})
                 maps.append(rec)
                 if gkey is not None and kind == "button":
                     drivers.setdefault(gkey, []).append((pf, ln, line_obj))
